@@ -43,8 +43,11 @@ fn install(op: &Op) {
     rayon::sim::install(op.v.iter().map(|&x| x as u64).collect(), pool);
 }
 
-fn finish_schedule() -> rayon::sim::Stats {
+fn finish_schedule(ctx: &mut crate::ctx::RunCtx) -> rayon::sim::Stats {
     let st = rayon::sim::uninstall();
+    // the split-tree shape and leaf order are part of the run signature (distinct schedules are counted)
+    ctx.sig.add(st.shape);
+    ctx.nontrivial = true;
     let mut s = sim();
     for _ in 0..st.splits.min(1) {
         s.probe(Probe::ParSplit);
@@ -121,7 +124,7 @@ impl<K: KeyT, V: ValT> MapWorld<K, V> {
                     }
                     _ => Some((m.par_iter().find_any(|(k, _)| Some(k.id()) == target).map(|(k, v)| me(k, v)), m.par_iter().any(|(k, _)| Some(k.id()) == target), m.par_iter().all(|(k, _)| Some(k.id()) != target))),
                 });
-                finish_schedule();
+                finish_schedule(&mut self.ctx);
                 let got = sorted(sink.into_inner().unwrap());
                 let found = match out {
                     Out::Ok(f) => f,
@@ -161,7 +164,7 @@ impl<K: KeyT, V: ValT> MapWorld<K, V> {
                         v.set(v.val() ^ TOGGLE)
                     }),
                 });
-                finish_schedule();
+                finish_schedule(&mut self.ctx);
                 if !matches!(out, Out::Ok(())) {
                     vio!(self, class, "a parallel mutable traversal panicked");
                 }
@@ -205,7 +208,7 @@ impl<K: KeyT, V: ValT> MapWorld<K, V> {
                         }
                     }
                 });
-                let st = finish_schedule();
+                let st = finish_schedule(&mut self.ctx);
                 let delivered: Vec<(K, V)> = match out {
                     Out::Ok(v) => v,
                     Out::Fault(Class::Consume) if panics => Vec::new(),
@@ -285,7 +288,7 @@ impl<K: KeyT, V: ValT> MapWorld<K, V> {
                     }
                     self.ctx.call(op, || m.par_extend(tmp.into_par_iter()))
                 };
-                finish_schedule();
+                finish_schedule(&mut self.ctx);
                 if !matches!(out, Out::Ok(())) {
                     vio!(self, class, "par_extend panicked");
                 }
@@ -312,7 +315,7 @@ impl<K: KeyT, V: ValT> MapWorld<K, V> {
                     drop(c);
                     v
                 });
-                finish_schedule();
+                finish_schedule(&mut self.ctx);
                 let got = match out {
                     Out::Ok(v) => sorted(v),
                     _ => vio!(self, class, "from_par_iter panicked"),
@@ -330,7 +333,7 @@ impl<K: KeyT, V: ValT> MapWorld<K, V> {
                 let a = self.slots[si].map.as_ref().unwrap();
                 let b = self.slots[ti].map.as_ref().unwrap();
                 let out = self.ctx.call(op, || (a.par_eq(b), b.par_eq(a), a == b));
-                finish_schedule();
+                finish_schedule(&mut self.ctx);
                 let (x, y, z) = match out {
                     Out::Ok(r) => r,
                     _ => vio!(self, class, "par_eq panicked"),
@@ -372,7 +375,7 @@ impl<K: KeyT> SetWorld<K> {
                         s.into_par_iter().map(|k| (k.id(), k.serial())).collect()
                     }
                 });
-                finish_schedule();
+                finish_schedule(&mut self.ctx);
                 match out {
                     Out::Ok(v) if sorted(v.clone()) == full => {}
                     Out::Ok(v) => vio!(self, class, "parallel set traversal delivered {} items (duplicates: {}), the set holds {n}", v.len(), has_dup(&v)),
@@ -397,7 +400,7 @@ impl<K: KeyT> SetWorld<K> {
                         sref.unwrap().par_drain().collect()
                     }
                 });
-                finish_schedule();
+                finish_schedule(&mut self.ctx);
                 let delivered = match out {
                     Out::Ok(v) => v,
                     _ => vio!(self, class, "an owning parallel set traversal panicked"),
@@ -440,7 +443,7 @@ impl<K: KeyT> SetWorld<K> {
                         _ => (a.par_symmetric_difference(b).map(|k| k.id()).collect(), a.symmetric_difference(b).map(|k| k.id()).collect()),
                     }
                 });
-                finish_schedule();
+                finish_schedule(&mut self.ctx);
                 let (p, s) = match out {
                     Out::Ok(r) => r,
                     _ => vio!(self, class, "a parallel set operation panicked"),
@@ -470,7 +473,7 @@ impl<K: KeyT> SetWorld<K> {
                     11 => (a.par_is_superset(b), a.is_superset(b)),
                     _ => (a.par_eq(b), a == b),
                 });
-                finish_schedule();
+                finish_schedule(&mut self.ctx);
                 let (p, s) = match out {
                     Out::Ok(r) => r,
                     _ => vio!(self, class, "a parallel set predicate panicked"),
@@ -498,7 +501,7 @@ impl<K: KeyT> SetWorld<K> {
                     drop(c);
                     v
                 });
-                finish_schedule();
+                finish_schedule(&mut self.ctx);
                 let got: BTreeSet<u32> = match out {
                     Out::Ok(v) => {
                         if has_dup(&v) {
@@ -539,7 +542,7 @@ impl<E: ElemT> TableWorld<E> {
                         t.into_par_iter().map(|e| te(e)).collect()
                     }
                 });
-                finish_schedule();
+                finish_schedule(&mut self.ctx);
                 match out {
                     Out::Ok(v) if sorted(v.clone()) == full => {}
                     Out::Ok(v) => vio!(self, class, "parallel table traversal delivered {} items, the table holds {n}", v.len()),
@@ -555,7 +558,7 @@ impl<E: ElemT> TableWorld<E> {
                         e.set_payload(e.payload() ^ TTOGGLE)
                     })
                 });
-                finish_schedule();
+                finish_schedule(&mut self.ctx);
                 if !matches!(out, Out::Ok(())) || cnt.load(Ordering::SeqCst) != n {
                     vio!(self, class, "par_iter_mut visited {} of {n} elements (or panicked)", cnt.load(Ordering::SeqCst));
                 }
@@ -580,7 +583,7 @@ impl<E: ElemT> TableWorld<E> {
                         tref.unwrap().par_drain().collect()
                     }
                 });
-                finish_schedule();
+                finish_schedule(&mut self.ctx);
                 let delivered = match out {
                     Out::Ok(v) => v,
                     _ => vio!(self, class, "an owning parallel table traversal panicked"),
